@@ -5,10 +5,12 @@ From ZV.Common Require Import Base Run.
 From ZV.C05 Require Import Model ModelFsa ModelDa Spec ProofsBase ProofsFsa ProofsDaArr.
 Open Scope N_scope.
 
-(* every array stays below LMAX slots (otherwise relocate_state has given up: 10001 attempts of stride 257 from
-   at most LMAX/4), every assigned base value below BMAX = LMAX - 256 *)
-Definition LMAX : N := 4194304.
-Definition BMAX : N := 4194048.
+(* every assigned base value is at most BMAX = MAX_BASE (find_free_base of a slot is a quarter of its index, and
+   relocate_state tests every base it tries against MAX_BASE), so every array stays below LMAX = BMAX + 256 =
+   MAX_STATE slots: parent values never touch the free bit, bases never touch the terminal bit, saturating_add
+   never saturates *)
+Definition LMAX : N := 2147483646.
+Definition BMAX : N := 2147483390.
 
 Definition bv (d : da) (i : N) : N := N.land (bget d i) VALUE_MASK.       (* base[i] & VALUE_MASK *)
 Definition tm (d : da) (i : N) : bool := has_term (bget d i).             (* base[i] & TERMINAL_BIT != 0 *)
